@@ -12,6 +12,11 @@ import harness as H  # noqa: E402
 
 
 def main():
+    if "--setup" in sys.argv[1:]:
+        ok, errs, out, failed = H.coq_build()
+        print(out[-3000:])
+        print("setup:", "ok" if ok else f"FAILED {errs} {failed}")
+        return 0 if ok else 1
     ap = argparse.ArgumentParser()
     ap.add_argument("prop")
     ap.add_argument("--tier", default=os.environ.get("VERIF_TIER", "quick"))
